@@ -3,6 +3,7 @@ from . import stackprops as sp, stackcommon as sc
 
 ID = "C10"
 FAMILY = "stack"
+RETRY = 2
 RULE = '2-4 verified connections established in random order, histories of subscribe / unsubscribe, local sets and remote writes (changing and non-changing) on 4 characteristics of 3 accessories, closes and reconnects; events drained per connection, delimited by a following request/response. non-trivial = at least one subscription and one change'
 ASSUMPTIONS = ["symbolic cryptography in the model (forging is impossible by construction of the message alphabet: INT-CTXT of ChaCha20-Poly1305, EUF-CMA of Ed25519, SRP-6a soundness, CDH on Curve25519, HKDF as a random oracle are assumed, not proved); net/http request parsing is modelled as 400-and-close for ciphertext on a plaintext connection; the reference controller's abstract message kinds are realised by concrete builders in harness/cmd/hcdrv/stack.go"]
 TRUSTED = ["reference controller harness/cmd/hcdrv/refctl.go (math/big SRP with the RFC 3526 prime re-derived from pi, crypto/ed25519, x/crypto curve25519 / chacha20poly1305 / hkdf)", "scenario translation ocaml/fam_stack.ml and canonicalisation tools/vlib/props/stackcommon.py"]
